@@ -157,8 +157,11 @@ class Repo:
 
                     from .inline import renumber, default_then_override
 
+                    from .inline import literal_forms
+
                     n_changed = default_then_override(tree)
                     n_changed += unroll_literal_loops(tree)
+                    n_changed += literal_forms(tree)
                     n_changed += sink_selected_callees(tree)
                     tree, exp = expand_unknown_helpers(tree, name, self.known_functions)
                     if exp:
